@@ -1393,7 +1393,13 @@ def field_summaries(F, struct_suffix, through_helpers=True):
 
     def is_helper(fn):
         b = local[fn]
-        return b.get("vis") != "Public" and not fn.startswith("<") and bool(callers.get(fn)) and b.get("kind") in ("Fn", "AssocFn")
+        if fn.startswith("<") or not callers.get(fn) or b.get("kind") not in ("Fn", "AssocFn"):
+            return False
+        if b.get("vis") != "Public":
+            return True
+        # a plain constructor function (`fn new(a, b) -> S { S { a, b } }`): every field is a parameter, unconditionally
+        xs = own.get(fn, [])
+        return len(xs) == 1 and not xs[0][1] and all(v[0] == "param" for v in xs[0][2].values())
 
     total = {fn: list(xs) for fn, xs in own.items()}
     # attribute helper constructions to their callers (bounded fixpoint)
